@@ -284,7 +284,13 @@ func Replay(path string) int {
 		return 2
 	}
 	if art.Scope == "" {
-		fmt.Fprintln(os.Stderr, "not an hx replay artefact")
+		var m map[string]interface{}
+		_ = json.Unmarshal(b, &m)
+		if m["engine"] == "mc" {
+			defer hx.CleanWorkDir()
+			return ReplayMC(m)
+		}
+		fmt.Fprintln(os.Stderr, "unknown replay artefact")
 		return 2
 	}
 	res := hx.Expand(hx.Job{Scope: art.Scope, Tier: art.Tier, Idx: art.Idx, Prog: art.Prog, Mode: "run"})
